@@ -57,6 +57,9 @@ theorem sides_tie (p : List Bytes) (i : Nat) :
   unfold GenFn.state_Sides
   cases p <;> by_cases h : i = 0 <;> simp [h]
 
+/-- non-vacuity: a state on page 3 of a node two levels down meets the range hypothesis; on page 0 the source returns `IndexError` -/
+example : GenFn.state_Previous [[0x61], [0x62]] 7 3 2 = (2, "", 8, 2, 4) ∧ GenFn.state_Previous [[0x61]] 7 0 0 = (0, "IndexError", 7, 0, 0) := by decide
+
 end Vise.Tie
 
 #print axioms Vise.Tie.next_tie
